@@ -20,7 +20,7 @@ import (
 // cache snapshot (names -> stamps), interest sets, acknowledged versions / nonces, name table.
 
 type histProfile struct {
-	pEvict int // an eviction by the cleaner (per cent of the steps)
+	pEvict       int // an eviction by the cleaner (per cent of the steps)
 	steps        int
 	pFault       int // % of steps that are stream faults
 	pBad         int // % of pushes with an undecodable slot
@@ -785,4 +785,3 @@ func init() {
 		runHistories(c, histProfile{steps: 30, pFault: 22, pEvict: 4, pBad: 15, pUnsolicited: 10, pGet: 35, authStop: true, createFail: c.thorough(), sendFail: true}, 50*c.budget)
 	}
 }
-
